@@ -15,7 +15,7 @@ let okind_name = function
   | ONormal -> "Normal:-"
   | OCatch None -> "Catch:-"
   | OCatch (Some k) -> Printf.sprintf "Catch:e%d" (int_of_nat k)
-  | OTimeout k -> Printf.sprintf "Timeout:%ds" (int_of_nat k)
+  | OTimeout k -> "Timeout:" ^ limit_name (int_of_nat k)
 
 let tree_lines (on : nat list) (t : node list) : string list =
   let arr = Array.of_list t in
